@@ -249,7 +249,9 @@ def _run_demo(root, demo, timeout=600):
     import re
 
     src = re.sub(r"/tmp/seed-C\d\d-[a-z0-9]+", root, src)
-    path = os.path.join(root, "_demo.py")
+    # same relative place as in the sub-agent's worktree: <root>/_seeded/demo.py
+    os.makedirs(os.path.join(root, "_seeded"), exist_ok=True)
+    path = os.path.join(root, "_seeded", "demo.py")
     with open(path, "w") as f:
         f.write(src)
     try:
